@@ -109,10 +109,16 @@ def gen_items(rng):
     dt = float(rng.choice([0.005, 0.01, 0.02, 1 / 75]))
     n = int(rng.choice([300, 1000, 4000, 12000]))
     items = []
-    for _ in range(k):
+    mix = str(rng.choice(["same", "same", "different", "near-equal"])) if k >= 2 else "same"
+    for i in range(k):
         a = gen.recording_arrays(rng, n, None, amp=float(10 ** rng.uniform(-3, 3)))
-        items.append((a[0], a[1], a[2], dt))
-    return items, dt, n
+        dti = dt
+        if mix == "different" and i % 2:
+            dti = dt * 2
+        elif mix == "near-equal" and i % 2:
+            dti = float(np.float32(dt)) if float(np.float32(dt)) != dt else dt * (1 + 1e-7)
+        items.append((a[0], a[1], a[2], dti))
+    return items, max(it[3] for it in items), n
 
 
 def gen_cfg(rng, dt, n, kind=None):
